@@ -596,12 +596,12 @@ func (w *World) applyPrune(op Op) *Violation {
 	}
 	var j0 int
 	if w.Trace != nil {
-		j0 = w.Trace.Kinds["BatchWrite"]
+		j0 = w.Trace.KindCount("BatchWrite")
 	}
 	if err := w.Tree.DeleteVersionsTo(n); err != nil {
 		return w.viol("prune.err", "DeleteVersionsTo(%d) (first=%d latest=%d): %v", n, w.First, w.Latest, err)
 	}
-	if w.Trace != nil && w.Trace.Kinds["BatchWrite"]-j0 >= 2 {
+	if w.Trace != nil && w.Trace.KindCount("BatchWrite")-j0 >= 2 {
 		w.Labels["prune_split"] = true
 	}
 	if n >= w.First {
@@ -861,8 +861,11 @@ func probeKeys(kv map[string][]byte) (present []string, absent []string) {
 	}
 	for _, k := range present {
 		add(k + "\x00")
-		add(k[:len(k)-1])
 		add(k + "a")
+		if len(k) == 0 {
+			continue
+		}
+		add(k[:len(k)-1])
 		b := []byte(k)
 		if b[len(b)-1] > 0 {
 			b[len(b)-1]--
